@@ -139,6 +139,17 @@ func revertedBetween(t *chainx.Tree, a, b int) []int {
 
 func RunTree(r *vh.Run, rng *vh.RNG, name string, t *chainx.Tree, sched [][]int) {
 	nd := t.Net.MustNode()
+	flushFail := strings.HasSuffix(name, "/flushfail")
+	if flushFail {
+		// the store's Flush fails once during every other plain submission (Model/ChainFF.lean);
+		// the batch is offered again afterwards; subscribers keep polling throughout
+		nd = t.Net.NewProbedNode()
+		var s2 [][]int
+		for _, b := range sched {
+			s2 = append(s2, b, b)
+		}
+		sched = s2
+	}
 	// C02's known class: once a block that removed a contract from the middle of an expiration
 	// list has been reverted, the order of later expiry payouts (hence leaf indices) may differ
 	// from a linear node's
@@ -197,8 +208,14 @@ func RunTree(r *vh.Run, rng *vh.RNG, name string, t *chainx.Tree, sched [][]int)
 			fmt.Fprintf(&sb, "addv2 %d", len(batch))
 			c.Tags = append(c.Tags, "addv2")
 		} else {
-			res = c01.Submit(nd, t.Get(batch))
-			sb.WriteString("add")
+			var ff bool
+			res, ff = c01.SubmitFF(nd, t.Get(batch), flushFail && bi%4 == 0)
+			if ff {
+				sb.WriteString("addff")
+				c.Tags = append(c.Tags, "flush-failed:"+res)
+			} else {
+				sb.WriteString("add")
+			}
 		}
 		for _, id := range batch {
 			fmt.Fprintf(&sb, " %d", id)
@@ -211,7 +228,7 @@ func RunTree(r *vh.Run, rng *vh.RNG, name string, t *chainx.Tree, sched [][]int)
 		if bt, ok := t.Lookup(beforeTip.ID); ok {
 			at, _ := t.Lookup(nd.CM.Tip().ID)
 			failedTarget := -1
-			if res == "reorg-failed" {
+			if res == "reorg-failed" || (flushFail && res == "rollback-failed") {
 				failedTarget = batch[len(batch)-1]
 			}
 			for _, x := range t.Reverted(bt, at, failedTarget) {
@@ -378,6 +395,10 @@ func Run(r *vh.Run) {
 			leaves := t.Leaves()
 			sched = append(sched, t.PathFromRoot(leaves[trng.Intn(len(leaves))]))
 			RunTree(r, trng, fmt.Sprintf("tree%d/pruned", i), t, sched)
+		}
+		// a store whose Flush fails in the middle of a submission
+		if i%2 == 0 {
+			RunTree(r, trng, fmt.Sprintf("tree%d/flushfail", i), t, t.Schedule(trng))
 		}
 		// a reorg to a SHORTER, heavier chain: subscribers sitting above the new tip's height
 		if sh := t.ShorterHeavierSchedule(trng); sh != nil {
